@@ -436,14 +436,20 @@ def check(prog, run):
     described_when = {}
     for val in (True, False):
         try:
-            _ev, exits = boolx.walk_under(pa.node, decide_factory(val))
+            # the argument list is not empty here: a loop over it runs (read as one iteration)
+            _ev, exits = boolx.walk_under(ast.fix_missing_locations(boolx.body_function(boolx.at_least_once(pa.node.body))), decide_factory(val))
         except ValueError as e:
             raise AnalysisError("C12.P10: %s" % e)
         prints = set()
         for kind, st, env in exits:
             if kind != "return":
                 continue
-            calls = {c.func.attr for c in env.get(boolx.CALLS, ()) if isinstance(c.func, ast.Attribute)}
+            penv = boolx.path_env(env.get(boolx.STMTS, ()))
+            calls = set()
+            for c in env.get(boolx.CALLS, ()):
+                fn = boolx.path_subst(c.func, penv) if isinstance(c.func, ast.Name) else c.func     # a bound method named first
+                if isinstance(fn, ast.Attribute):
+                    calls.add(fn.attr)
             prints.add("print_description" in calls)
         described_when[val] = prints
     r.instance("`%s` folds to %s; descriptions printed when it is True: %s, when False: %s"
